@@ -237,7 +237,9 @@ def main(argv=None):
         "violations": len(violations),
     }
     # a partial run (--tasks) must not replace the evidence of the registered command
-    evpath = os.path.join(ROOT, "evidence", prop + ".json") if not partial else os.path.join(ROOT, "replay_out", "partial-evidence." + prop + ".json")
+    # ... nor must a run against another source tree (PYVC_SCRATCH_RUN=1: seeded changes are checked in a scratch worktree put first on PYTHONPATH)
+    scratch = partial or os.environ.get("PYVC_SCRATCH_RUN") == "1"
+    evpath = os.path.join(ROOT, "evidence", prop + ".json") if not scratch else os.path.join(ROOT, "replay_out", "partial-evidence." + prop + ".json")
     os.makedirs(os.path.dirname(evpath), exist_ok=True)
     with open(evpath, "w") as f:
         json.dump(ev, f, indent=1, default=str)
